@@ -210,6 +210,14 @@ def push (c : Ctx) (line : Nat) (st : St) (name : String) (e : Ent) : Except Dia
   if (lookup st.members name).isSome then err c "duplicate-definition" line
   else .ok { st with members := st.members ++ [(name, e)] }
 
+/-- `push_member` of the implementation: the name must be free — checked FIRST —, then the scope accepts or refuses this kind
+of member (`validate_member_on_push`).  A misplaced statement whose name is also taken is a duplicate definition. -/
+def pushIf (c : Ctx) (line : Nat) (st : St) (name : String) (e : Ent) (refuse : Option String) : Except Diag St :=
+  if (lookup st.members name).isSome then err c "duplicate-definition" line else
+  match refuse with
+  | some r => err c r line
+  | none => .ok { st with members := st.members ++ [(name, e)] }
+
 mutual
 /-- one scope: items in source order, every definition pushed when it closes -/
 def checkItems (imp : Ctx → Nat → String → Except Diag Ent) (c : Ctx) (k : Kind) : List Item → St → Except Diag St
@@ -223,8 +231,7 @@ def checkItem (imp : Ctx → Nat → String → Except Diag Ent) (c : Ctx) (k : 
   -- error in there comes first.
   | .const line name v, st => do
     let cv ← evalConst c line v
-    if k ≠ .proto then err c (if k = .msg then "const-in-message" else "const-in-enum") line else
-    push c line st name (.const cv)
+    pushIf c line st name (.const cv) (if k ≠ .proto then some (if k = .msg then "const-in-message" else "const-in-enum") else none)
   | .alias line name ty, st =>
     if ¬ isAliasable ty then
       -- a reference: undefined names are reported as such, defined ones may not be aliased
@@ -237,15 +244,14 @@ def checkItem (imp : Ctx → Nat → String → Except Diag Ent) (c : Ctx) (k : 
       | _ => err c "invalid-aliased-type" line
     else do
     let t ← elabTy c line ty
-    if k ≠ .proto then err c (if k = .msg then "alias-in-message" else "alias-in-enum") line else
-    push c line st name (.alias t)
+    pushIf c line st name (.alias t) (if k ≠ .proto then some (if k = .msg then "alias-in-message" else "alias-in-enum") else none)
   | .enum line name nbits members extra, st =>
     if ¬ (1 ≤ nbits ∧ nbits ≤ 64) then err c "invalid-uint-width" line else do
     let r ← checkEnumMembers c nbits members [] []
     -- nothing but members may be declared inside an enum
     let _ ← checkItems imp c .enum extra { members := r.1 }   -- the members read so far are in the enum's scope
-    if k = .enum then err c "enum-in-enum" line else
-    push c line { st with nextId := st.nextId + 1 } name (.enum (1000 * c.stack.length + st.nextId) nbits r.2 r.1)
+    pushIf c line { st with nextId := st.nextId + 1 } name (.enum (1000 * c.stack.length + st.nextId) nbits r.2 r.1)
+      (if k = .enum then some "enum-in-enum" else none)
   | .msg line name ext items, st =>
     if ext && c.traditional then err c "extensible-in-traditional-mode" line else do
     let inner ← checkItems imp c .msg items { nextId := 0 }
@@ -254,13 +260,13 @@ def checkItem (imp : Ctx → Nat → String → Except Diag Ent) (c : Ctx) (k : 
     if nb > 65535 then err c "message-size-overflow" line else
     match inner.maxBytes with
     | some mb => if mb > 0 ∧ (nb + 7) / 8 > mb then err c "message-size-overflow" line else
-        if k = .enum then err c "message-in-enum" line else
-        push c line { st with nextId := st.nextId + 1 } name
+        pushIf c line { st with nextId := st.nextId + 1 } name
           (.msg (1000 * c.stack.length + st.nextId) (.msg ext inner.fields) inner.members)
+          (if k = .enum then some "message-in-enum" else none)
     | none =>
-      if k = .enum then err c "message-in-enum" line else
-      push c line { st with nextId := st.nextId + 1 } name
+      pushIf c line { st with nextId := st.nextId + 1 } name
         (.msg (1000 * c.stack.length + st.nextId) (.msg ext inner.fields) inner.members)
+        (if k = .enum then some "message-in-enum" else none)
   | .field line name num ty, st => do
     let t ← elabTy c line ty
     if ¬ (1 ≤ num ∧ num ≤ 255) then err c "invalid-field-number" line else
@@ -275,7 +281,9 @@ def checkItem (imp : Ctx → Nat → String → Except Diag Ent) (c : Ctx) (k : 
     .ok { st' with fields := st'.fields ++ [(num, t)] }
   | .option line name v, st => do
     let cv ← evalConst c line v
-    if k = .enum then err c "option-in-enum" line else
+    -- `push_member` looks at the name first; an enum has no option table, the statement is refused when it is complete
+    if k = .enum then pushIf c line st name .option (some "option-in-enum") else
+    if (lookup st.members name).isSome then err c "duplicate-definition" line else do
     checkOption c k line name cv
     let st' ← push c line st name .option
     match name, cv with
@@ -284,9 +292,17 @@ def checkItem (imp : Ctx → Nat → String → Except Diag Ent) (c : Ctx) (k : 
   | .import_ line asName file0, st =>
     let file := normPath file0
     if k ≠ .proto then do
-      -- the imported file is read before the placement is rejected
-      let _ ← imp c line file
-      err c (if k = .msg then "import-in-message" else "import-in-enum") line
+      -- the imported file is read, the file and the name are compared with what the PROTO already has and the name is pushed
+      -- into the current scope before the placement is rejected
+      let e ← imp c line file
+      let top := c.stack.getLast?.getD []
+      if top.any (fun m => match m.2 with | .proto f _ _ => f == file | _ => false) then err c "duplicate-import" line else
+      let nm := match asName, e with
+        | some a, _ => a
+        | none, .proto _ pn _ => pn
+        | none, _ => ""
+      if (lookup top nm).isSome then err c "duplicate-definition" line else
+      pushIf c line st nm e (some (if k = .msg then "import-in-message" else "import-in-enum"))
     else do
     let e ← imp c line file
     -- the same file twice in one proto
